@@ -218,6 +218,13 @@ func enumerateWrites(f *ssa.Function) []write {
 				out = append(out, write{fn: f, in: in, kind: "append", target: x.Common().Args[0]})
 			case "builtin.copy":
 				out = append(out, write{fn: f, in: in, kind: "copy-into", target: x.Common().Args[0]})
+			case "sort.Slice", "sort.SliceStable", "sort.Sort", "sort.Stable", "sort.Strings", "sort.Ints", "math/rand.Shuffle":
+				// sorting permutes the elements of the slice it is handed in place
+				t := x.Common().Args[0]
+				if mi, ok := t.(*ssa.MakeInterface); ok {
+					t = mi.X
+				}
+				out = append(out, write{fn: f, in: in, kind: "sort-in-place", target: t})
 			}
 		}
 	})
@@ -563,6 +570,53 @@ func runShared(c *Ctx) {
 			"a type whose instances are shared between calls holds no per-call object (builder, call state, graph, vertex)", ternary(bad == "", "no per-call field", bad))
 	}
 
+	// … and no package-level variable is (or holds) a per-call object: a "pristine template" of the call state or of a
+	// builder that each call copies by value shares the template's maps between all calls
+	for _, pkg := range []*ssa.Package{p.Arg, p.Graph} {
+		for gname, mem := range pkg.Members {
+			g, ok := mem.(*ssa.Global)
+			if !ok || strings.HasPrefix(gname, "init$") {
+				continue
+			}
+			var holds func(t types.Type, d int) string
+			holds = func(t types.Type, d int) string {
+				if d > 3 {
+					return ""
+				}
+				t = derefAll(t)
+				n := core.NamedOf(t)
+				if _, listed := perCallTypes[n]; own.perCall[n] || listed {
+					return n
+				}
+				if st, _ := core.StructOf(t); st != nil {
+					for i := 0; i < st.NumFields(); i++ {
+						if h := holds(st.Field(i).Type(), d+1); h != "" {
+							return h
+						}
+					}
+				}
+				switch u := t.Underlying().(type) {
+				case *types.Map:
+					if h := holds(u.Elem(), d+1); h != "" {
+						return h
+					}
+					return holds(u.Key(), d+1)
+				case *types.Slice:
+					return holds(u.Elem(), d+1)
+				}
+				return ""
+			}
+			pt, isP := g.Type().(*types.Pointer)
+			if !isP {
+				continue
+			}
+			if h := holds(pt.Elem(), 0); h != "" {
+				c.R.Add("SHARED-E", "global|"+gname, shortPkg(pkg)+gname, p.Pos(g.Pos()), false,
+					"no package-level variable is or holds a per-call object (builder, call state, graph, vertex)", "package variable "+gname+" holds per-call type "+h)
+			}
+		}
+	}
+
 	// ---- per-write classification
 	initFns := map[*ssa.Function]bool{}
 	for _, pkg := range []*ssa.Package{p.Arg, p.Graph} {
@@ -749,10 +803,17 @@ func runShared(c *Ctx) {
 				} else {
 					okk, why = c.capturedIsLocal(f, w.target, inEsc)
 				}
-				c.R.Add("SHARED-W", key, fname, pos, okk, "writes through a container parameter or captured container reach only per-call memory", why)
+				rule := "SHARED-W"
+				if root == "captured" && inEsc {
+					rule = "SHARED-C" // a closure that outlives its creator writes into what it captured
+				}
+				c.R.Add(rule, key, fname, pos, okk, "writes through a container parameter or captured container reach only per-call memory", why)
 			case owner == "" && (root == "local" || root == "call-result"):
 				// element of a local array/slice value obtained from a call: reflect slices etc.
 				okk, why := c.localContainerOK(w)
+				if w.kind == "sort-in-place" && (p.FreshIn(w.target) || localAccumulator(w.target)) {
+					okk, why = true, "sorts a slice built in this function"
+				}
 				c.R.Add("SHARED-W", key, fname, pos, okk, "writes through a slice obtained from elsewhere do not modify memory other calls can reach", why)
 			case owner == "" && root == "*ssa.MakeMap":
 				// an element (inner map, slice) of a map made in this function: local exactly when every element stored into
